@@ -39,6 +39,38 @@ CLAIMED["C03"] = dict(
          "ascending order from the seek key (that is C01/C02 for table iterators), and the overlay statement as an equality of whole sequences."),
    design="4/C03", technique="contract-based deductive verification: heap invariant, inductive root-min lemma, merge-step postconditions, discharged by SMT")
 
+FS = (" The filesystem is a trusted ghost model seen from one handle (no I/O faults: O_EXCL create fails only with EEXIST, "
+      "rename and remove of owned paths succeed; other handles may change tables.list at any filesystem operation unless this handle holds "
+      "tables.list.lock). The step from 'every filesystem action of every handle meets its guard' to 'all interleavings' is the rely/guarantee "
+      "argument of DESIGN.md section 3.2, not mechanised. readNames, reload, checkAddition, formatName, NewFileBlockSource and the Writer "
+      "entry points are trusted at the protocol level (contracts listed in the evidence); the transaction callback is assumed to write only its Writer.")
+CLAIMED["C08"] = dict(
+   text=("Deductive proof on the real stack code that every removal or rename of a *.lock path happens only while this handle holds that lock "
+         "(guard G1, an obligation at every os.Remove/os.Rename call site on every path, including deferred closures), that a lock is granted only by a "
+         "successful O_EXCL create, and that every operation releases exactly the locks it took on all return paths (NewAddition, Addition.Add/Commit/Close, "
+         "compactRange with its table locks, AutoCompact, CompactAll, Add, Clean, Close)."),
+   note=TRUST + FS, design="3.1, 4/C08", technique="contract-based deductive verification: ghost lock-ownership state, guard obligations at every filesystem call site")
+CLAIMED["C16"] = dict(
+   text=("Deductive proof that no operation leaves a lock or a temporary file behind on any return path (held and ownsTmp only shrink across Add, "
+         "NewAddition, Addition.Add/Commit/Close, compactLocked, compactRange, AutoCompact, CompactAll, Clean, Close), and that Clean and Close do not "
+         "panic on any stack, including an empty one."),
+   note=TRUST + FS + " Not decided: that at global quiescence the directory holds exactly tables.list and the listed tables (needs the garbage-collection guard G3 for table files, see C05).",
+   design="3.1, 4/C16", technique="contract-based deductive verification: ghost ownership of locks and temp files, nopanic obligations")
+CLAIMED["C04"] = dict(
+   text=("Deductive proof of the safety core of the transactional store: tables.list is replaced only by a rename from this handle's own lock file, "
+         "held since before the list was last compared with the handle's view, and only by a list that extends the current list with this transaction's "
+         "tables (Addition.Commit) or replaces one contiguous range of it by at most one table (compactRange) - guard G2 at both rename sites with explicit "
+         "witnesses; the Addition invariant (names = current list ++ new tables, lock held) is kept by NewAddition/Add/Commit/Close; Add commits at most one "
+         "transaction, never reports ErrLockFailure for a committed one, and a lost lock race in the follow-up compaction is contention, not an error."),
+   note=TRUST + FS + " Not decided: linearizability as a relation on concurrent histories; that the follow-up auto-compaction cannot fail for other reasons without I/O faults; reload is assumed to succeed (no fault, no 2.5 s livelock).",
+   design="3, 4/C04", technique="contract-based deductive verification: ghost list content, commit guard with witnesses, transaction invariant")
+CLAIMED["C09"] = dict(
+   text=("Deductive proof that UpToDate returns true exactly when the handle's tables are the names in tables.list in the same order, that NewAddition "
+         "succeeds only after that comparison under the lock and otherwise releases the lock and returns ErrLockFailure, and that compactRange commits only "
+         "after re-checking the list under the re-taken lock (the commit guard G2 fails for a stale view)."),
+   note=TRUST + FS + " Not decided here: that the handle is refreshed after a failed Add (reload is trusted) and the retry's update index.",
+   design="4/C09", technique="contract-based deductive verification: exact UpToDate postcondition, commit guard")
+
 NOT_APPLICABLE = {
  "C15": "relational property of two programs in two languages; no deductive verifier for C is installed and rtv reads Go SSA only (DESIGN.md section 4/C15)",
 }
